@@ -149,8 +149,21 @@ func (tr *Tr) expr(e ast.Expr, env *Env, k econt) string {
 			return tr.expr(e.X, env, func(e1 *Env, x Val) string {
 				x = tr.use(x, e.X)
 				t := x.typ
-				if t.K == KPtr && t.Elem.K == KWrap {
+				if t.K == KPtr && (t.Elem.K == KWrap || t.Elem.K == KRec) {
 					t = t.Elem
+				}
+				// a field promoted from the embedded field of a single-field struct
+				for t.K == KWrap && t.Embedded && t.Field != e.Sel.Name {
+					t = t.Elem
+				}
+				if t.K == KRec {
+					// a struct represented by a record of the model: the projection
+					for _, f := range t.Fields {
+						if f.name == e.Sel.Name {
+							return k(e1, Val{term: f.proj + " " + paren(x.term), typ: f.typ})
+						}
+					}
+					tr.fail(e, "selector %s on a value of type %v", e.Sel.Name, x.typ)
 				}
 				if t.K != KWrap || t.Field != e.Sel.Name {
 					tr.fail(e, "selector %s on a value of type %v", e.Sel.Name, x.typ)
@@ -274,7 +287,13 @@ func (tr *Tr) expr(e ast.Expr, env *Env, k econt) string {
 			})
 		})
 	case *ast.CompositeLit:
+		if e.Type == nil {
+			tr.fail(e, "composite literal without a type")
+		}
 		t := tr.resolveType(e.Type)
+		if t.K == KRec || t.K == KWrap {
+			return tr.structLit(e, t, env, k)
+		}
 		if !t.isList() {
 			tr.fail(e, "composite literal of type %v", t)
 		}
@@ -305,6 +324,66 @@ func (tr *Tr) expr(e ast.Expr, env *Env, k econt) string {
 	}
 	tr.fail(e, "expression %T", e)
 	return ""
+}
+
+// structLit: T{...} for a struct represented by a record of the model (every field given,
+// all keyed or all positional; the elements are evaluated in source order) or by its
+// single field.
+func (tr *Tr) structLit(e *ast.CompositeLit, t *T, env *Env, k econt) string {
+	var names []string
+	var types []*T
+	if t.K == KRec {
+		for _, f := range t.Fields {
+			names = append(names, f.name)
+			types = append(types, f.typ)
+		}
+	} else {
+		names, types = []string{t.Field}, []*T{t.Elem}
+	}
+	if len(e.Elts) != len(names) {
+		tr.fail(e, "composite literal of type %v with %d of its %d fields (a zero-valued field is not represented)", t, len(e.Elts), len(names))
+	}
+	pos := make([]int, len(e.Elts)) // the field each element initialises
+	var exprs []ast.Expr
+	keyed := 0
+	seen := map[int]bool{}
+	for i, el := range e.Elts {
+		if kv, ok := el.(*ast.KeyValueExpr); ok {
+			keyed++
+			id, ok := kv.Key.(*ast.Ident)
+			idx := -1
+			if ok {
+				for j, n := range names {
+					if n == id.Name {
+						idx = j
+					}
+				}
+			}
+			if idx < 0 || seen[idx] {
+				tr.fail(kv, "key of a composite literal of type %v", t)
+			}
+			seen[idx] = true
+			pos[i] = idx
+			exprs = append(exprs, kv.Value)
+		} else {
+			pos[i] = i
+			exprs = append(exprs, el)
+		}
+	}
+	if keyed != 0 && keyed != len(e.Elts) {
+		tr.fail(e, "composite literal mixing keyed and positional elements")
+	}
+	return tr.evalList(exprs, env, func(e2 *Env, vs []Val) string {
+		terms := make([]string, len(names))
+		for i, v := range vs {
+			cv := tr.coerce(tr.use(v, exprs[i]), types[pos[i]], exprs[i])
+			terms[pos[i]] = paren(cv.term)
+		}
+		if t.K == KWrap {
+			return k(e2, Val{term: vs[0].term, typ: t})
+		}
+		return k(e2, Val{term: t.Ctor + " " + strings.Join(terms, " "), typ: t})
+	})
 }
 
 func exprStr(e ast.Expr) string {
